@@ -452,13 +452,54 @@ def d_mem():
     m.submodules.inst = Instance("foo", p_A=1, i_x=x, o_y=Signal(4, name="y"), a_keep=1)
     return m, [wp.addr, wp.data, wp.en, rp.addr, rp.data, rp2.addr, rp2.data, x]
 
+def d_alias():
+    # several named signals on the same nets, later ones with attributes / an enumeration shape
+    import enum as _enum
+    from amaranth.lib import enum as aenum
+    class Color(aenum.Enum, shape=2):
+        RED = 0
+        BLUE = 2
+    m = Module()
+    a = Signal(2, name="a")
+    b = Signal(2, name="b", attrs={"keep": 1})
+    c = Signal(Color, name="c")
+    d = Signal(2, name="d", attrs={"mark": "x"})
+    o = Signal(2, name="o")
+    m.d.comb += [b.eq(a), c.eq(b), d.eq(c.as_value()), o.eq(d ^ 1)]
+    sub = Module()
+    e = Signal(2, name="e", attrs={"sub": 2})
+    sub.d.comb += e.eq(d)
+    m.submodules.sub = sub
+    return m, [a, o]
+
+def attrs_of(m):
+    frag = Fragment.get(m, None)
+    seen = []
+    def walk(fr):
+        for dom, stmts in fr.statements.items():
+            for st in stmts:
+                for sig in list(st._lhs_signals()) + list(st._rhs_signals()):
+                    seen.append((sig.name, repr(sorted(sig.attrs.items()))))
+        for sub, _n, _s in fr.subfragments:
+            walk(sub)
+    walk(frag)
+    return sorted(set(seen))
+
 out = []
-for mk in (d_domains, d_names, d_mem):
+for mk in (d_domains, d_names, d_mem, d_alias):
     m, ports = mk()
+    before = attrs_of(m) if mk is d_alias else None
     text = rtlil.convert(m, ports=ports, emit_src=False)
     m2, ports2 = mk()
     text2 = rtlil.convert(m2, ports=ports2, emit_src=False)
-    out.append((mk.__name__, hashlib.sha256(text.encode()).hexdigest(), text == text2))
+    same = text == text2
+    if mk is not d_mem:
+        # converting the SAME design object again gives the same text, and conversion does not write into the design
+        text3 = rtlil.convert(m, ports=ports, emit_src=False)
+        same = same and text3 == text
+    if before is not None:
+        same = same and attrs_of(m) == before
+    out.append((mk.__name__, hashlib.sha256(text.encode()).hexdigest(), same))
 for o in out:
     print(o[0], o[1], o[2])
 '''
@@ -494,7 +535,7 @@ def check_hash_seed(tier):
         obs.append({"name": "hash-seed::rtlil-identical-across-seeds", "kind": "bounded", "status": "refuted", "backend": "cpython",
                     "time_s": 0.0, "failing_input": bad})
     return {"task": "hash-seed", "paths": 0, "solver_s": 0.0, "obligations": obs,
-            "bounded": [{"name": "RTLIL byte-identical across PYTHONHASHSEED and repeated conversion", "bound": f"3 designs x {n} seeds",
+            "bounded": [{"name": "RTLIL byte-identical across PYTHONHASHSEED and repeated conversion", "bound": f"4 designs x {n} seeds (incl. converting the same design object twice)",
                          "cases": max(cases, 1), "failures": 1 if bad else 0}]}
 
 
